@@ -136,15 +136,15 @@ fn k_exd_cell_float32_off5() {
     kani::cover!(true, "reachable");
 }
 
-//@unit props=C05 label=S tier=quick fn=exd::EXD::read_column bound="column type Bool at column offset 5 in a 24-byte row; stored byte 0 or 1, every other byte symbolic"
-//@desc the cell is false for a stored byte 0 and true for a stored byte 1, whatever bytes follow it
+//@unit props=C05 label=S tier=quick fn=exd::EXD::read_column bound="column type Bool at column offset 5 in a 24-byte row, all contents"
+//@desc the cell is false for a stored byte 0 and true for every other stored byte (the reference decoders - SaintCoinach, Lumina - read a whole-byte boolean as byte != 0), whatever bytes follow it
 #[kani::proof]
 #[kani::unwind(26)]
 fn k_exd_cell_bool_off5() {
     let arr: [u8; 24] = kani::any();
-    kani::assume(arr[5] <= 1);
+    let _ = 5;
     match cell(&arr, ColumnDataType::Bool, 5) {
-        Some(ColumnData::Bool(v)) => assert!(v == (arr[5] == 1), "boolean cell equals the one stored byte"),
+        Some(ColumnData::Bool(v)) => assert!(v == (arr[5] != 0), "boolean cell = (the one stored byte != 0)"),
         _ => assert!(false, "cell of the declared type"),
     }
     kani::cover!(true, "reachable");
@@ -371,15 +371,15 @@ fn k_exd_cell_float32_off0() {
     kani::cover!(true, "reachable");
 }
 
-//@unit props=C05 label=S tier=thorough fn=exd::EXD::read_column bound="column type Bool at column offset 0 in a 24-byte row; stored byte 0 or 1, every other byte symbolic"
-//@desc the cell is false for a stored byte 0 and true for a stored byte 1, whatever bytes follow it
+//@unit props=C05 label=S tier=thorough fn=exd::EXD::read_column bound="column type Bool at column offset 0 in a 24-byte row, all contents"
+//@desc the cell is false for a stored byte 0 and true for every other stored byte (the reference decoders - SaintCoinach, Lumina - read a whole-byte boolean as byte != 0), whatever bytes follow it
 #[kani::proof]
 #[kani::unwind(26)]
 fn k_exd_cell_bool_off0() {
     let arr: [u8; 24] = kani::any();
-    kani::assume(arr[0] <= 1);
+    let _ = 0;
     match cell(&arr, ColumnDataType::Bool, 0) {
-        Some(ColumnData::Bool(v)) => assert!(v == (arr[0] == 1), "boolean cell equals the one stored byte"),
+        Some(ColumnData::Bool(v)) => assert!(v == (arr[0] != 0), "boolean cell = (the one stored byte != 0)"),
         _ => assert!(false, "cell of the declared type"),
     }
     kani::cover!(true, "reachable");
@@ -606,15 +606,15 @@ fn k_exd_cell_float32_off1() {
     kani::cover!(true, "reachable");
 }
 
-//@unit props=C05 label=S tier=thorough fn=exd::EXD::read_column bound="column type Bool at column offset 1 in a 24-byte row; stored byte 0 or 1, every other byte symbolic"
-//@desc the cell is false for a stored byte 0 and true for a stored byte 1, whatever bytes follow it
+//@unit props=C05 label=S tier=thorough fn=exd::EXD::read_column bound="column type Bool at column offset 1 in a 24-byte row, all contents"
+//@desc the cell is false for a stored byte 0 and true for every other stored byte (the reference decoders - SaintCoinach, Lumina - read a whole-byte boolean as byte != 0), whatever bytes follow it
 #[kani::proof]
 #[kani::unwind(26)]
 fn k_exd_cell_bool_off1() {
     let arr: [u8; 24] = kani::any();
-    kani::assume(arr[1] <= 1);
+    let _ = 1;
     match cell(&arr, ColumnDataType::Bool, 1) {
-        Some(ColumnData::Bool(v)) => assert!(v == (arr[1] == 1), "boolean cell equals the one stored byte"),
+        Some(ColumnData::Bool(v)) => assert!(v == (arr[1] != 0), "boolean cell = (the one stored byte != 0)"),
         _ => assert!(false, "cell of the declared type"),
     }
     kani::cover!(true, "reachable");
